@@ -357,6 +357,42 @@ def rule_eq3(ctx, py):
     ctx.floor(R, 1)
 
 
+def rule_convert_args(ctx, py, R="C06.ARGS"):
+    """every call of convert_value / compute_conversion_factor names, as the *source* system, the units system of the very object
+    whose number (or dimension) it converts: convert_value(X.value, X.units.sys, <destination>, X.units.dim).  Source and
+    destination exchanged apply the inverse factor."""
+    n = 0
+    for f in py.mods["units"].funcs.values():
+        for c in pyfe.calls_in(f):
+            nm = pyfe.call_name(c).split(".")[-1]
+            if nm not in ("convert_value", "compute_conversion_factor") or f.name in ("convert_value",):
+                continue
+            args = [pyfe.arg(c, i, k_) for i, k_ in enumerate(("value", "su_src", "su_dst", "sdim") if nm == "convert_value" else
+                                                          ("su_src", "su_dst", "sdim"))]
+            if nm == "compute_conversion_factor":
+                args = [None] + args
+            if any(a is None for a in args[1:]):
+                continue
+            val, src_, dst_, dim_ = args
+            owner = None
+            t = pyfe.src(dim_)
+            if t.endswith(".units.dim") or t.endswith("._units.dim"):
+                owner = t.rsplit(".units", 1)[0] if ".units.dim" in t else t.rsplit("._units", 1)[0]
+            if owner is None and val is not None and pyfe.src(val).endswith(".value"):
+                owner = pyfe.src(val)[:-len(".value")]
+            if owner is None:
+                continue
+            n += 1
+            okk = pyfe.src(src_) in ("%s.units.sys" % owner, "%s._units.sys" % owner) and \
+                (val is None or pyfe.src(val) in ("%s.value" % owner, "%s._value" % owner)) and \
+                pyfe.src(dst_) not in ("%s.units.sys" % owner, "%s._units.sys" % owner)
+            ctx.check(okk, R, c, f._qual, pyfe.src(c)[:90], "(number of X, system of X, destination, dimension of X)",
+                      "the number of `%s` is converted with source system `%s` and destination `%s`: source and destination are "
+                      "exchanged (or belong to another object), the inverse / a foreign factor is applied" % (
+                          owner, pyfe.src(src_), pyfe.src(dst_)))
+    ctx.floor(R, 2)
+
+
 def run(ctx):
     py = ctx.py
     rule_si(ctx, py)
@@ -365,6 +401,7 @@ def run(ctx):
     rule_labels(ctx, py, vol, con)
     rule_dimguard(ctx, py)
     rule_eq3(ctx, py)
+    rule_convert_args(ctx, py)
     from .. import lints
     lints.run(ctx, "C06", ctx.py, ["units"])
     ctx.assume("the 1e-12 composition bound is not measured; it follows from the product-of-ratios form (C06.KEYS)")
